@@ -252,11 +252,13 @@ def tx_post(self, old, ghost):
         self.credits == 0 or tx_idle(self),
         # completion is signalled as soon as everything has been sent with a credit to spare
         implies(tx_idle(self) and self.credits > 0, self.drained.is_set()),
+        # nothing to send: nothing is sent
+        implies(tx_idle(old.self), ghost.k == old.ghost.k),
     ]
 
 
 TX_POST_NAMES = ['mirror', 'credits>=0', 'no-sdu-in-progress', 'sdu-in-progress-wf', 'queue-nonempty-items', 'drained-sound',
-                 'stream-preserved', 'one-credit-per-frame', 'frames-monotone', 'no-stall', 'drained-complete']
+                 'stream-preserved', 'one-credit-per-frame', 'frames-monotone', 'no-stall', 'drained-complete', 'idle-sends-nothing']
 
 
 def po_outer_inv(self, old, ghost):
@@ -266,6 +268,7 @@ def po_outer_inv(self, old, ghost):
         tx_stream(self, ghost) == tx_stream(old.self, old.ghost),
         old.self.credits - self.credits == ghost.k - old.ghost.k,
         ghost.k >= old.ghost.k,
+        implies(tx_idle(old.self), tx_idle(self) and ghost.k == old.ghost.k),
     ]
 
 
@@ -344,9 +347,10 @@ contract(
         ghost.k >= old.ghost.k,
         self.credits == 0 or tx_idle(self),
         implies(tx_idle(self) and self.credits > 0, self.drained.is_set()),
+        implies(tx_idle(old.self), ghost.k == old.ghost.k and self.credits == old.self.credits + credits),
     ],
     ensures_names=['mirror', 'credits>=0', 'no-sdu-in-progress', 'sdu-in-progress-wf', 'queue-nonempty-items', 'drained-sound',
-                   'stream-preserved', 'one-credit-per-frame', 'frames-monotone', 'no-stall', 'drained-complete'],
+                   'stream-preserved', 'one-credit-per-frame', 'frames-monotone', 'no-stall', 'drained-complete', 'idle-keeps-all-credits'],
     modifies=TX_MOD,
     uses=USE_PO,
 )
@@ -537,3 +541,219 @@ contract(
     modifies=[],
     inline=['BaseError.__init__', 'InvalidArgumentError.__init__'],
 )
+
+
+# ---------------------------------------------------------------------------
+# negotiation (acceptor side) and routing of the later credit indications / data PDUs
+# ---------------------------------------------------------------------------
+def mgr_sig(ghost, connection, cid, frame):
+    ghost.sig_n = ghost.sig_n + 1
+    ghost.sig_chan = cid
+    ghost.sig = frame
+
+
+def srv_on_connection(ghost, channel):
+    ghost.accepted_n = ghost.accepted_n + 1
+    ghost.accepted_prev = ghost.accepted
+    ghost.accepted = channel
+
+
+model('ghost:Conn', fields=dict(handle=IntRange(0, 0xEFF)))
+model(
+    'bumble.l2cap:LeCreditBasedChannelServer',
+    # a server exists only through create_le_credit_based_server(spec): parameters in the legal ranges (Spec.__post_init__)
+    fields=dict(psm=Int, max_credits=IntRange(1, 65535), mtu=IntRange(23, 65535), mps=IntRange(23, 65533)),
+    methods={'on_connection': Callback('on_connection', effect=srv_on_connection)},
+)
+model(
+    'bumble.l2cap:ChannelManager',
+    fields=dict(channels=Any, le_coc_channels=Any, le_coc_servers=Any, pending_credit_based_connections=Any),
+    methods={'send_control_frame': Callback('send_control_frame', effect=mgr_sig), 'send_pdu': Callback('send_pdu', effect=mgr_send_pdu)},
+)
+model(
+    'bumble.l2cap:L2CAP_LE_Credit_Based_Connection_Request',
+    fields=dict(identifier=IntRange(0, 255), le_psm=IntRange(0, 0xFFFF), source_cid=IntRange(0, 0xFFFF), mtu=IntRange(0, 0xFFFF), mps=IntRange(0, 0xFFFF), initial_credits=IntRange(0, 0xFFFF)),
+)
+MGR = Inst('bumble.l2cap:ChannelManager')
+SERVER = Inst('bumble.l2cap:LeCreditBasedChannelServer')
+NEG_GHOST = dict(sig_n=Int, sig_chan=Int, sig=Any, accepted_n=Int, accepted=Any, accepted_prev=Any, **TX_GHOST)
+LE_CID_FIRST = l2cap.L2CAP_LE_U_DYNAMIC_CID_RANGE_START
+LE_RESULT = l2cap.L2CAP_LE_Credit_Based_Connection_Response.Result
+
+
+def setup_tables(mgr, h, psm, server, has_server, other, has_other):
+    """the manager's tables before the request: a server on the PSM or none; no channel on this connection, or one
+    (any local / peer endpoint), registered the way an established channel is: by its source CID in `channels`, by the
+    peer's CID in `le_coc_channels`"""
+    mgr.le_coc_servers = {}
+    if has_server:
+        mgr.le_coc_servers[psm] = server
+    mgr.channels = {}
+    mgr.le_coc_channels = {}
+    if has_other:
+        row = {}
+        row[other.source_cid] = other
+        mgr.channels[h] = row
+        le_row = {}
+        le_row[other.destination_cid] = other
+        mgr.le_coc_channels[h] = le_row
+
+
+def lemma_le_request(mgr, connection, request, server, has_server, other, has_other, grant, ghost):
+    h = connection.handle
+    setup_tables(mgr, h, request.le_psm, server, has_server, other, has_other)
+    other_credits = other.credits
+
+    mgr.on_l2cap_le_credit_based_connection_request(connection, LE_SIG_CID, request)
+
+    rsp = ghost.sig
+    assert ghost.sig_n == 1 and ghost.sig_chan == LE_SIG_CID  # exactly one response, on the signalling channel
+    if not has_server:
+        assert rsp.result == LE_RESULT.CONNECTION_REFUSED_LE_PSM_NOT_SUPPORTED
+        assert ghost.accepted_n == 0
+        return
+    if has_other and other.destination_cid == request.source_cid:
+        # the peer reuses one of its endpoints: refused, the existing channel keeps its registration
+        assert rsp.result == LE_RESULT.CONNECTION_REFUSED_SOURCE_CID_ALREADY_ALLOCATED
+        assert ghost.accepted_n == 0
+        assert mgr.find_le_coc_channel(h, request.source_cid) is other
+        return
+    # accepted
+    assert ghost.accepted_n == 1
+    ch = ghost.accepted
+    assert rsp.result == LE_RESULT.CONNECTION_SUCCESSFUL and rsp.identifier == request.identifier
+    # both sides hold the same parameters: what the request carried is what the channel sends with ...
+    assert ch.destination_cid == request.source_cid
+    assert ch.peer_mtu == request.mtu and ch.peer_mps == request.mps and ch.credits == request.initial_credits
+    # ... and what the response announces is what the channel receives with
+    assert rsp.destination_cid == ch.source_cid and rsp.mtu == ch.mtu and rsp.mps == ch.mps and rsp.initial_credits == ch.peer_credits
+    assert ch.mtu == server.mtu and ch.mps == server.mps and ch.peer_credits == server.max_credits and ch.peer_max_credits == server.max_credits
+    assert ch.state == CONNECTED
+    assert LE_CID_FIRST <= ch.source_cid and ch.source_cid <= LE_CID_FIRST + 1
+    assert not (has_other and ch.source_cid == other.source_cid)
+    # data PDUs: the peer addresses them to the endpoint named in the response
+    assert mgr.find_channel(h, rsp.destination_cid) is ch
+    # credit indications: the peer names ITS endpoint (Core Vol 3 Part A 4.24), equal to our allocation or not
+    mgr.on_l2cap_le_flow_control_credit(connection, LE_SIG_CID, l2cap.L2CAP_LE_Flow_Control_Credit(identifier=1, cid=request.source_cid, credits=grant))
+    assert ch.credits == request.initial_credits + grant
+    assert other.credits == other_credits
+
+
+
+def neg_requires(request, server, other, has_other, grant, ghost):
+    return [
+        ghost.sig_n == 0,
+        ghost.accepted_n == 0,
+        # the request carries parameters in their legal ranges (the statement's quantifier)
+        23 <= request.mtu,
+        23 <= request.mps and request.mps <= 65533,
+        # ghost ledger of the channel about to be created (see on_credits): credits granted so far
+        ghost.c == request.initial_credits + grant,
+        ghost.mps == request.mps,
+        ghost.mtu == request.mtu,
+        ghost.dcid == request.source_cid,
+        len(ghost.rbuf) == 0,
+        # an established channel (if any) on the same connection
+        implies(has_other, other.state == CONNECTED),
+    ]
+
+
+lemma(
+    'coc_le_request_then_credit',
+    lemma_le_request,
+    prop='C07',
+    params=dict(mgr=MGR, connection=Inst('ghost:Conn'), request=Inst('bumble.l2cap:L2CAP_LE_Credit_Based_Connection_Request'), server=SERVER,
+                has_server=Bool, other=CHAN, has_other=Bool, grant=IntRange(0, 0xFFFF)),
+    ghost=NEG_GHOST,
+    requires=neg_requires,
+    uses=['bumble.l2cap:LeCreditBasedChannel.on_credits'],
+    inline=['ChannelManager.on_l2cap_le_credit_based_connection_request', 'ChannelManager.on_l2cap_le_flow_control_credit', 'ChannelManager.find_le_coc_channel',
+            'ChannelManager.find_channel', 'ChannelManager.find_free_le_cid', 'ChannelManager.find_free_le_cids', 'LeCreditBasedChannel.__init__',
+            'L2CAP_Control_Frame.*', 'L2CAP_LE_Credit_Based_Connection_Response.*', 'L2CAP_LE_Flow_Control_Credit.*'],
+)
+
+
+# --- enhanced credit based connection request (up to 5 channels per request; here 1 and 2: bounded) ---------------
+from pyvc.contracts import ConcList  # noqa: E402
+
+ECRED_RESULT = l2cap.L2CAP_Credit_Based_Connection_Response.Result
+
+
+def lemma_enhanced_request(mgr, connection, request, server, has_server, other, has_other, which, grant, ghost):
+    h = connection.handle
+    n = len(request.source_cid)
+    setup_tables(mgr, h, request.spsm, server, has_server, other, has_other)
+    other_credits = other.credits
+
+    mgr.on_l2cap_credit_based_connection_request(connection, LE_SIG_CID, request)
+
+    rsp = ghost.sig
+    assert ghost.sig_n == 1 and ghost.sig_chan == LE_SIG_CID
+    if not has_server:
+        assert rsp.result == ECRED_RESULT.ALL_CONNECTIONS_REFUSED_SPSM_NOT_SUPPORTED
+        assert ghost.accepted_n == 0
+        return
+    if has_other and other.destination_cid in request.source_cid:
+        assert rsp.result == ECRED_RESULT.SOME_CONNECTIONS_REFUSED_SOURCE_CID_ALREADY_ALLOCATED
+        assert ghost.accepted_n == 0
+        assert mgr.find_le_coc_channel(h, other.destination_cid) is other
+        return
+    # accepted: one channel per requested endpoint, in the order of the request
+    assert ghost.accepted_n == n
+    assert rsp.result == ECRED_RESULT.ALL_CONNECTIONS_SUCCESSFUL and rsp.identifier == request.identifier
+    assert len(rsp.destination_cid) == n
+    ch = ghost.accepted if which == n - 1 else ghost.accepted_prev
+    peer_cid = request.source_cid[which]
+    assert ch.destination_cid == peer_cid
+    assert ch.peer_mtu == request.mtu and ch.peer_mps == request.mps and ch.credits == request.initial_credits
+    assert rsp.destination_cid[which] == ch.source_cid and rsp.mtu == ch.mtu and rsp.mps == ch.mps and rsp.initial_credits == ch.peer_credits
+    assert ch.mtu == server.mtu and ch.mps == server.mps and ch.peer_credits == server.max_credits and ch.peer_max_credits == server.max_credits
+    assert ch.state == CONNECTED
+    assert not (has_other and ch.source_cid == other.source_cid)
+    # data PDUs: addressed to the endpoint named in the response
+    assert mgr.find_channel(h, rsp.destination_cid[which]) is ch
+    # credit indications name the PEER's endpoint (Core Vol 3 Part A 4.24), equal to our allocation or not
+    mgr.on_l2cap_le_flow_control_credit(connection, LE_SIG_CID, l2cap.L2CAP_LE_Flow_Control_Credit(identifier=1, cid=peer_cid, credits=grant))
+    assert ch.credits == request.initial_credits + grant
+    assert other.credits == other_credits
+
+
+def enh_requires(request, server, other, has_other, which, grant, ghost):
+    n = len(request.source_cid)
+    return [
+        ghost.sig_n == 0,
+        ghost.accepted_n == 0,
+        0 <= which and which < n,
+        23 <= request.mtu,
+        23 <= request.mps and request.mps <= 65533,
+        # the requested endpoints are distinct
+        implies(n == 2, request.source_cid[0] != request.source_cid[n - 1]),
+        ghost.c == request.initial_credits + grant,
+        ghost.mps == request.mps,
+        ghost.mtu == request.mtu,
+        ghost.dcid == request.source_cid[which],
+        len(ghost.rbuf) == 0,
+        implies(has_other, other.state == CONNECTED),
+    ]
+
+
+for _n in (1, 2):
+    model(
+        f'bumble.l2cap:L2CAP_Credit_Based_Connection_Request#{_n}',
+        fields=dict(identifier=IntRange(0, 255), spsm=IntRange(0, 0xFFFF), mtu=IntRange(0, 0xFFFF), mps=IntRange(0, 0xFFFF), initial_credits=IntRange(0, 0xFFFF),
+                    source_cid=ConcList(IntRange(0, 0xFFFF), _n)),
+    )
+    lemma(
+        f'coc_enhanced_request_then_credit_{_n}',
+        lemma_enhanced_request,
+        prop='C07',
+        params=dict(mgr=MGR, connection=Inst('ghost:Conn'), request=Inst(f'bumble.l2cap:L2CAP_Credit_Based_Connection_Request#{_n}'), server=SERVER,
+                    has_server=Bool, other=CHAN, has_other=Bool, which=IntRange(0, _n - 1), grant=IntRange(0, 0xFFFF)),
+        ghost=NEG_GHOST,
+        requires=enh_requires,
+        uses=['bumble.l2cap:LeCreditBasedChannel.on_credits'],
+        inline=['ChannelManager.on_l2cap_credit_based_connection_request', 'ChannelManager.on_l2cap_le_flow_control_credit', 'ChannelManager.find_le_coc_channel',
+                'ChannelManager.find_channel', 'ChannelManager.find_free_le_cid', 'ChannelManager.find_free_le_cids', 'LeCreditBasedChannel.__init__',
+                'L2CAP_Control_Frame.*', 'L2CAP_Credit_Based_Connection_Response.*', 'L2CAP_LE_Flow_Control_Credit.*'],
+        note=f'bounded: {_n} channel(s) in the request (the specification allows up to 5), at most one other channel on the connection',
+    )
